@@ -16,7 +16,7 @@ try:
     ovp = os.path.join(tmp, "ov.json")
     json.dump(ov, open(ovp, "w"))
     env = dict(os.environ, GOFLAGS="-mod=mod", GOPROXY="off", GOSUMDB="off", GOTOOLCHAIN="local", VERIF_TIER=tier)
-    timeout = "600s" if tier == "thorough" else "120s"
+    timeout = "1500s" if tier == "thorough" else "300s"
     p = subprocess.run(["go", "test", "-overlay", ovp, "-vet=off", "-count=1", "-v", "-timeout", timeout, "-run", "TestVerifBounded", "./" + pkg],
                        cwd=repo, env=env, capture_output=True, text=True)
     out = p.stdout + p.stderr
@@ -27,6 +27,12 @@ try:
                 info.update(json.loads(line.strip()[8:]))
             except Exception:
                 pass
+    if p.returncode != 0 and "test timed out after" in out and "COUNTEREXAMPLE" not in out:
+        # the harness ran out of its time budget (machine load, not the code under test): undecided, never a
+        # violation
+        print(out[-1500:])
+        print(json.dumps(dict(info, error="bounded stand-in exceeded its time budget of " + timeout + " (undecided)")))
+        sys.exit(2)
     if p.returncode != 0:
         rdir = os.path.join("/verif/replay", prop)
         os.makedirs(rdir, exist_ok=True)
